@@ -294,9 +294,16 @@ def branch_needs(cls, specs, funcs):
     """name -> {switch parameter: value} that a call has to pass for the name to be legal (conditions on parameters)"""
     mro = [c for c in cls.__mro__ if c is not object]
     needs = {}
+    # classes whose __init__ runs at all: a non-immediate super(Parent, self) leaves the parent's __init__ out
+    names_ = [c_.__name__ for c_ in mro]
+    reached, i_ = set(), 0
+    while i_ < len(mro):
+        reached.add(i_)
+        after_ = [fw[1] for fw in specs.get(names_[i_], {}).get("forwards", []) if fw[0] == "super-after"]
+        i_ = names_.index(after_[0]) + 1 if after_ else i_ + 1
     for i, c in enumerate(mro):
         sp = specs.get(c.__name__)
-        if not sp or "switch" not in sp:
+        if not sp or "switch" not in sp or i not in reached:
             continue
         sw, other_names = sp["switch"]
         for n in other_names:
